@@ -1,4 +1,5 @@
 import PytypeModel.Proofs.MiniFlowTable
+import PytypeModel.Typegraph.Program
 
 /-! # C01 — inferred types admit every value the program computes (fragment F1, phase a)
 
@@ -78,5 +79,58 @@ example : inferName decTable demo "q" = .union [.base .str, .base .str] := by rf
 example : admits (inferName decTable demo "z") (.str "s") = false := by
   have : inferName decTable demo "z" = .union [.base .int, .base .none] := by rfl
   rw [this]; simp [admits, admitsAny]
+
+/-! ## how a container's type parameter accumulates across CFG nodes (mechanism of `fix:` 23d3aba)
+
+pytype keeps the element types of a container in one typegraph Variable per type parameter.  The solver treats every
+node at which a Variable has a binding as a *blocker* for the Variable's other bindings (`blockedOf`, model of
+`solver.cc` `FindSolution`) — "a later assignment hides the earlier ones".  An operation that only *adds* to a container
+(`dict.update`, `DICT_UPDATE`, `LIST_EXTEND`) must therefore rebind what the parameter already holds at the node where
+it merges the new types; `Dict.update`, `byte_DICT_UPDATE` and `byte_LIST_EXTEND` did not, and the emitted stub lost
+the older element types.
+
+The two histories below are the two versions of the merge on the smallest graph that shows it — nodes 0 → 1 → 2, the
+parameter `T` (variable 0) holding `int` (data 1) since node 0, the update's element variable (variable 1) holding `str`
+(data 2) at node 1 — executed by the model of `cfg.Program` (`Typegraph/Program.lean`, the model behind C07/C08).  The
+harness replays both op by op on the real `cfg.Program` and compares every answer (stage K of C01). -/
+section accumulate
+open PytypeModel.Typegraph
+
+/-- nodes 0 → 1 → 2; `T` = variable 0 with binding 0 = `int` at node 0; variable 1 with binding 1 = `str` at node 1 -/
+def accSetup : List Op :=
+  [.newNode none, .connectNew 0 none, .connectNew 1 none,
+   .newVar, .addBinding 0 1 (some ([], 0)),
+   .newVar, .addBinding 1 2 (some ([], 1))]
+
+/-- `T.PasteVariable(update, node 1)` — what `merge_instance_type_parameter` does -/
+def accMergeOnly : List Op := accSetup ++ [.pasteVariable 0 1 (some 1) []]
+
+/-- `T.PasteVariable(T.AssignToNewVariable(node 1), node 1)` first — `Instance.rebind_instance_type_parameter` —
+then the same merge -/
+def accRebindThenMerge : List Op :=
+  accSetup ++ [.assignVar 0 (some 1), .pasteVariable 0 2 (some 1) [], .pasteVariable 0 1 (some 1) []]
+
+example : wfHistory (PState.init []) accMergeOnly = true ∧ wfHistory (PState.init []) accRebindThenMerge = true := by
+  decide
+
+/-- Without the rebind the older element type is invisible from every later node: `int` (binding 0) cannot be seen
+from node 2 and `Variable.Filter` at node 2 returns `str` alone — the stub says `list[str]`. -/
+theorem merge_only_hides_older :
+    freshAnswer [] accMergeOnly (.visible 0 2) = .bool false ∧
+    freshAnswer [] accMergeOnly (.filter 0 2 true) = .ids [2] ∧
+    freshAnswer [] accMergeOnly (.visible 0 1) = .bool false := by decide
+
+/-- With the rebind both element types are visible from node 1 on: `Variable.Filter` returns `int` and `str`. -/
+theorem rebind_keeps_older :
+    freshAnswer [] accRebindThenMerge (.visible 0 2) = .bool true ∧
+    freshAnswer [] accRebindThenMerge (.filter 0 2 true) = .ids [0, 3] ∧
+    freshAnswer [] accRebindThenMerge (.visible 0 1) = .bool true := by decide
+
+/-- … and before the merge the older type was visible in both histories (the merge is what hides it) -/
+theorem older_visible_before_merge :
+    freshAnswer [] accSetup (.visible 0 2) = .bool true ∧ freshAnswer [] accSetup (.filter 0 2 true) = .ids [0] := by
+  decide
+
+end accumulate
 
 end PytypeModel.Props.C01
